@@ -3,14 +3,21 @@ package main
 // Minimisation: delta debugging on the plan. An edit is kept iff the
 // edited plan still fails the same invariant of the same property.
 
+import "time"
+
 type minimizer struct {
-	test   func(*Plan) bool
-	budget int
-	tests  int
+	test     func(*Plan) bool
+	budget   int
+	tests    int
+	deadline time.Time
 }
 
 func (m *minimizer) try(q *Plan) bool {
 	if m.tests >= m.budget {
+		return false
+	}
+	if !m.deadline.IsZero() && time.Now().After(m.deadline) {
+		m.budget = m.tests // wall-clock cap: stop minimising, keep what we have
 		return false
 	}
 	m.tests++
@@ -133,7 +140,11 @@ func planSites(p *Plan) *sites {
 func wrapperKind(k string) bool { return k == "safe" || k == "unsafe" }
 
 func minimize(p *Plan, test func(*Plan) bool, budget int) (*Plan, int) {
-	m := &minimizer{test: test, budget: budget}
+	return minimizeUntil(p, test, budget, time.Time{})
+}
+
+func minimizeUntil(p *Plan, test func(*Plan) bool, budget int, deadline time.Time) (*Plan, int) {
+	m := &minimizer{test: test, budget: budget, deadline: deadline}
 	p = p.clone()
 	for round := 0; round < 6; round++ {
 		changed := false
